@@ -32,6 +32,8 @@ type Event struct {
 	Labels    []string `json:"labels"`              // library API functions found on the caller's stack, innermost first
 	Handles   int      `json:"handles"`             // open file handles of this wrapper after the call
 	AfterDone bool     `json:"afterDone,omitempty"` // issued after the watched context was done
+	At        int64    `json:"at,omitempty"`        // completion instant, ns since the gate was created (monotonic)
+	MTime     int64    `json:"mtime,omitempty"`     // Chtimes: the modification time that was set, ns since the gate was created
 }
 
 // Action tells a parked call what to do when released.
@@ -71,13 +73,14 @@ type Gate struct {
 	Done        func() bool  // optional: reports whether the watched context is done (for AfterDone)
 	OnEvent     func(*Event) // optional: called (under no lock) after each recorded event
 	crashCh     chan struct{}
+	T0          time.Time
 }
 
 // NewGate creates a gate. labelFns are substrings of function names looked for on the stack of each
 // call (innermost first in Event.Labels); hbMarker identifies heartbeat goroutines.
 func NewGate(labelFns []string, hbMarker string) *Gate {
 	g := &Gate{parked: map[string][]*Call{}, finished: map[string]int{}, gating: map[string]bool{}, stale: map[string]bool{},
-		labelFns: labelFns, hbMarker: hbMarker, crashCh: make(chan struct{})}
+		labelFns: labelFns, hbMarker: hbMarker, crashCh: make(chan struct{}), T0: time.Now()}
 	g.cond = sync.NewCond(&g.mu)
 	return g
 }
@@ -284,6 +287,7 @@ func (g *Gate) enter(owner, op, path string, mut bool, fileOp bool) (ev Event, a
 		}
 		g.mu.Lock()
 		ev.Seq = g.seq.Add(1)
+		ev.At = int64(time.Since(g.T0))
 		g.log = append(g.log, ev)
 		g.mu.Unlock()
 		if g.OnEvent != nil {
@@ -508,6 +512,11 @@ func (f *Fs) Chtimes(name string, atime time.Time, mtime time.Time) error {
 		f.G.refreshed(name)
 	}
 	done.Finish(err, 0, f.OpenHandles())
+	f.G.mu.Lock()
+	if n := len(f.G.log); n > 0 && f.G.log[n-1].Op == "Chtimes" && f.G.log[n-1].Owner != "" {
+		f.G.log[n-1].MTime = int64(mtime.Sub(f.G.T0))
+	}
+	f.G.mu.Unlock()
 	return err
 }
 
